@@ -157,15 +157,34 @@ def coq_property(pid, timeout=900):
     res["print_assumptions"] = n_print
     return res
 
-def coqchk_property(pid, timeout=2400):
-    """Independent re-check (coqchk) of Properties/<pid>.vo and everything it depends on; returns dict(ok, axioms, wall_s, tail)."""
+def coqchk_property(pid, timeout=7200):
+    """Independent re-check (coqchk) of Properties/<pid>.vo and everything it depends on; returns dict(ok, axioms, wall_s, tail).
+    coqchk has no VM: it re-evaluates every vm_compute proof with the kernel's lazy machine (the 448k-state sweep of
+    Proofs/ShutdownProto.v alone takes ~25 min), hence the generous timeout.  A positive result is reused as long as every compiled
+    file of the development is byte-for-byte the one that was checked."""
     t0 = time.time()
+    h = hashlib.sha256()
+    for f in sorted(glob.glob(os.path.join(COQ, "*", "*.vo"))):
+        h.update(f.encode()); h.update(open(f, "rb").read())
+    key = h.hexdigest()
+    cf = os.path.join(CACHE, "coqchk", pid + ".json")
+    if os.path.exists(cf) and os.environ.get("VERIF_NO_PROP_CACHE") != "1":
+        try:
+            c = json.load(open(cf))
+            if c.get("key") == key and c.get("ok"):
+                return dict(ok=True, axioms=c["axioms"], rc=0, wall_s=round(time.time() - t0, 1), tail="", reused=True, checked_wall_s=c["wall_s"])
+        except Exception:
+            pass
     rc, out = sh(["coqchk", "-silent", "-o", "-Q", ".", "BB", "BB.Properties." + pid], cwd=COQ, timeout=timeout)
     m = re.search(r"\* Axioms:\s*(.*?)\n\s*\n", out, re.S)
     axioms = m.group(1).strip() if m else "?"
     bad = [k for k in ("type-in-type", "unsafe (co)fixpoints", "positivity is assumed") if re.search(re.escape(k) + r":\s*<none>", out) is None]
-    return dict(ok=(rc == 0 and axioms == "<none>" and not bad), axioms=axioms, rc=rc, wall_s=round(time.time() - t0, 1),
-                tail="\n".join(out.strip().split("\n")[-14:]))
+    res = dict(ok=(rc == 0 and axioms == "<none>" and not bad), axioms=axioms, rc=rc, wall_s=round(time.time() - t0, 1),
+               tail="\n".join(out.strip().split("\n")[-14:]), reused=False)
+    if res["ok"]:
+        os.makedirs(os.path.dirname(cf), exist_ok=True)
+        json.dump(dict(key=key, ok=True, axioms=axioms, wall_s=res["wall_s"]), open(cf, "w"))
+    return res
 
 # ----------------------------------------------------------------------------------------------------------------
 # OCaml checker (extraction + dune)
@@ -225,17 +244,27 @@ def build_tools(timeout=600):
             return False, log_all
     return True, log_all
 
-def harness_files():
-    """In-package harness files that are integrated (harness/inpkg/FILES); others in the directory are work in progress."""
+def harness_files(pid=None):
+    """In-package harness files that are integrated (harness/inpkg/FILES: `<file> <properties|*>`; other files in the
+    directory are work in progress).  With pid: the files of that property's harness binary only."""
     d = os.path.join(HARNESS, "inpkg")
-    return [os.path.join(d, l.strip()) for l in open(os.path.join(d, "FILES")) if l.strip() and not l.startswith("#")]
+    res = []
+    for l in open(os.path.join(d, "FILES")):
+        l = l.strip()
+        if not l or l.startswith("#"):
+            continue
+        parts = l.split()
+        who = parts[1] if len(parts) > 1 else "*"
+        if pid is None or who == "*" or pid in who.split(","):
+            res.append(os.path.join(d, parts[0]))
+    return res
 
 def repo_go_files():
     return sorted(f for f in glob.glob(os.path.join(REPO, "*.go")))
 
-def tree_hash(extra=()):
+def tree_hash(extra=(), pid=None):
     h = hashlib.sha256()
-    for f in repo_go_files() + [os.path.join(REPO, "go.mod")] + harness_files() + list(extra):
+    for f in repo_go_files() + [os.path.join(REPO, "go.mod")] + harness_files(pid) + list(extra):
         h.update(f.encode()); h.update(b"\0")
         try:
             h.update(open(f, "rb").read())
@@ -244,10 +273,10 @@ def tree_hash(extra=()):
         h.update(b"\0")
     return h.hexdigest()[:20]
 
-def build_harness(race=False, instrument=False, timeout=900):
+def build_harness(race=False, instrument=False, timeout=900, pid=None):
     """Returns (path to test binary or None, log). Library sources are the working tree of /repo; the repository's own
     _test.go files are excluded; harness files are added as zz_verif_*_test.go through -overlay (nothing is written to /repo)."""
-    key = tree_hash() + ("-race" if race else "") + ("-instr" if instrument else "")
+    key = tree_hash(pid=pid) + ("-race" if race else "") + ("-instr" if instrument else "")
     d = os.path.join(CACHE, "harness-" + key)
     exe = os.path.join(d, "verif.test")
     if os.path.exists(exe):
@@ -273,7 +302,7 @@ def build_harness(race=False, instrument=False, timeout=900):
             return None, "instrumenter failed:\n" + out
         for f in glob.glob(os.path.join(idir, "*.go")):
             replace[os.path.join(REPO, os.path.basename(f))] = f
-    for f in harness_files():
+    for f in harness_files(pid):
         replace[os.path.join(REPO, "zz_verif_" + os.path.basename(f)[:-3] + "_test.go")] = f
     ov = os.path.join(d, "overlay.json")
     json.dump({"Replace": replace}, open(ov, "w"))
